@@ -400,6 +400,8 @@ def check_static(ctx, rng, apps, validators):
     v = validators.get((kind, path))
     if r < 0.2:
         hdrs.append(("Range", rng.choice(["bytes=0-1", "bytes=1-", "bytes=0-0,2-3", "bytes=99-", "bytes=2-1", ""])))
+        if v and rng.random() < 0.5:
+            hdrs.insert(rng.choice([0, 1]), ("If-Range", rng.choice([v[0], v[1], '"stale"', "Wed, 21 Oct 2015 07:28:00 GMT"])))  # before or after Range
     elif r < 0.5 and v:
         hdrs.append(("If-None-Match", rng.choice([v[0], "W/" + v[0], f'"x", {v[0]}', "*", '"other"', ""])))
         if rng.random() < 0.5:
